@@ -54,6 +54,7 @@ func cmdRun(args []string) int {
 	solver := fs.String("solver", "z3", "z3|z3-new|cvc5")
 	timeout := fs.Int("timeout", 20000, "per-query timeout ms")
 	panics := fs.Bool("panics", true, "report panics as violations")
+	apis := fs.String("apis", "", "extra api templates (comma separated, e.g. ldb)")
 	deadline := fs.Int("deadline", 0, "stop after this many seconds")
 	single := fs.String("path", "", "run only the path with this decision vector (comma separated), with tracing")
 	fs.Parse(args)
@@ -62,6 +63,15 @@ func cmdRun(args []string) int {
 	if err != nil {
 		fmt.Fprintln(os.Stderr, "overlay:", err)
 		return 2
+	}
+	for _, a := range strings.Split(*apis, ",") {
+		if a == "" {
+			continue
+		}
+		if err := addAPITemplate(ov, *repo, *pkg, *pkgName, a, true); err != nil {
+			fmt.Fprintln(os.Stderr, "api:", err)
+			return 2
+		}
 	}
 	eng, err := LoadEngine(*repo, "./"+*pkg, ov)
 	if err != nil {
